@@ -16,7 +16,6 @@ from .enclib import (BES, MSG_CLASSES, bits_of, centered, gen_dist, gen_k, gen_m
                      parse_cols, phase_vals, show_col, show_cols, target_limb_and_scale, torus_dist, val_coeff)
 
 OPS = ["glwe_sk", "glwe_sk", "glwe_sk", "glwe_zero_sk", "glwe_cmp", "glwe_pk", "glwe_pk", "lwe_sk", "lwe_sk"]
-MISMATCH_KEY = "glwe_encrypt_sk/lwe_encrypt_sk:plaintext-base2k-ignored"
 
 
 def gen_case(rng, idx):
@@ -240,9 +239,10 @@ def unnormalised(c, a):
     return sum(1 for l in dec for x in l if x < lo or x > hi)
 
 
-def mismatch_probe(ctx, binp, rng, count):
-    """plaintext whose base2k differs from the ciphertext's: the statement demands the message at the
-    plaintext's own position; sk paths ignore pt.base2k (recorded finding), the pk path asserts."""
+def mismatch_probe(ctx, binp, drv, rng, count):
+    """plaintext whose base2k differs from the ciphertext's: every encryption routine must refuse it
+    (assertion; sk paths since the repair of the recorded finding, the pk path always did) — a silently
+    misplaced message is a violation.  The model (`Core.ptRadixOk`) must panic on the same cases."""
     cases = []
     for i in range(count):
         c = gen_case(rng, 10 ** 6 + i)
@@ -297,10 +297,24 @@ def mismatch_probe(ctx, binp, rng, count):
                          "rerun": f"printf '%s\\n' '{req}' | harness/target/release/pvh enc"}
         else:
             hist["correct"] += 1
+    # the model must refuse the same calls (sk paths; the pk model has no plaintext-radix input: the pk routine always asserted)
+    if drv:
+        ml = []
+        for i, c in enumerate(cases):
+            if c["op"] == "glwe_pk":
+                continue
+            op = "lwe_sk" if c["op"] == "lwe_sk" else "glwe_sk"
+            ml.append(f"{i} enc {op} bits={bits_of(c['be'])} n={c['n']} b={c['b']} k={c['k']} kxe={c['kxe']} size={c['size']} db={c['db']} ds=1 "
+                      f"ptb={c['ptb']} sk=- ct=- e=0 pt={show_col(c['pt'])}")
+        rc2, mout, _ = ctx.run_lines(drv, [], ml, timeout=600)
+        hist["model_refuses"] = sum(1 for l in mout if l.split()[1:2] == ["panic"])
+        hist["model_lines"] = len(ml)
+        if hist["model_refuses"] != len(ml) and first is None:
+            first = {"oracle": "the model accepts a plaintext of another radix", "model": [l[:120] for l in mout if l.split()[1:2] != ["panic"]][:3]}
     ctx.cov["plaintext_radix_mismatch_probe"] = hist
     if first is not None:
-        ctx.violation("glwe_encrypt_sk / glwe_compressed_encrypt_sk / lwe_encrypt_sk ignore the plaintext's base2k: message encrypted at the wrong position",
-                      first, True, key=MISMATCH_KEY)
+        ctx.violation("an encryption routine accepted a plaintext of another base2k and encrypted the message at the wrong position",
+                      first, True)
 
 
 def run(ctx):
@@ -384,7 +398,7 @@ def run(ctx):
             ctx.cov["radix_hist"] = {str(lo): sum(1 for c in cases if lo <= c["b"] < lo + 10) for lo in (1, 11, 21, 31, 41, 51)}
             ctx.cov["cross_radix_decrypt"] = sum(1 for c in cases if c["db"] != c["b"])
     if binp:
-        mismatch_probe(ctx, binp, rng.fork(), 60 if quick else 600)
+        mismatch_probe(ctx, binp, drv, rng.fork(), 60 if quick else 600)
     if witness is not None:
         ctx.violation("decryption of a fresh ciphertext is not message + bounded error at the message's position", witness, True)
     elif broken:
